@@ -55,11 +55,17 @@ static int _conn_decompress(struct xmpp_compression *comp,
     switch (ret) {
     case Z_STREAM_END:
     case Z_OK:
+        /* when the output buffer is full inflate may still hold plaintext:
+         * stay "pending" until it had room left */
         if (comp->decompression.buffer_end ==
-            comp->decompression.stream.next_in)
+                comp->decompression.stream.next_in &&
+            comp->decompression.stream.avail_out != 0)
             comp->decompression.stream.next_in = NULL;
         return comp->decompression.stream.next_out - (Bytef *)buff;
     case Z_BUF_ERROR:
+        /* nothing more to get out of the input we have */
+        if (comp->decompression.stream.avail_in == 0)
+            comp->decompression.stream.next_in = NULL;
         break;
     default:
         strophe_error(comp->conn->ctx, "zlib", "inflate error %d", ret);
